@@ -13,8 +13,13 @@ MCFG = CFG + "CONSTANTS SHORT_READ_OK = FALSE\nENC_NEVER_DECRYPTS = FALSE\nDEC_S
 
 
 def rec_wrap(rec, enc, spec, plain):
+    # the payload as bytes / bytearray / memoryview in turn (all accepted by the library): an equal value gives the same frame,
+    # and the caller's buffer is left alone
+    buf = (bytes, bytearray, lambda b: memoryview(bytes(b)))[rec.tid % 3](bytes(plain))
     try:
-        out = enc.encrypt(bytes(plain))
+        out = enc.encrypt(buf)
+        if bytes(buf) != bytes(plain):
+            raise RuntimeError("encrypt() modified the caller's buffer")
     except Exception as e:                      # noqa: BLE001 -- a refused payload of <= 253 bytes: recorded, the specification rejects it
         if len(plain) > 253:
             raise
